@@ -336,10 +336,12 @@ class TBus(EventBus):
         return r
 
     async def _run_loop(self):
+        rt = RT
         try:
             await super()._run_loop()
         finally:
-            RT.rec('rlDone', b=RT.busidx[self], idle=bool(self._on_idle and self._on_idle.is_set()))
+            if rt is RT:      # (a coroutine of an earlier scenario finalised late must not write into this one)
+                RT.rec('rlDone', b=RT.busidx[self], idle=bool(self._on_idle and self._on_idle.is_set()))
 
     def dispatch(self, event):
         e = eid(event)
@@ -382,25 +384,32 @@ class TBus(EventBus):
             RT.rec('rlcreate', b=RT.busidx[self], p=proc(), holds=svc.holds_global_lock.get())
 
     async def process_event(self, event, timeout=None):
+        rt = RT
         p = proc(self)
         e = eid(event)
         b = RT.busidx[self]
         RT.rec('peBegin', p=p, b=b, e=e)
         RT.act.setdefault((b, e), []).append(p)
-        RT.cur_pe.setdefault(asyncio.current_task(), []).append((b, e))
+        task = asyncio.current_task()
+        RT.cur_pe.setdefault(task, []).append((b, e))
         ok = False
         try:
             r = await super().process_event(event, timeout)
             ok = True
             return r
+        except GeneratorExit:
+            raise               # the coroutine is being finalised (scenario teardown), not a library action
         except BaseException as ex:
-            RT.rec('peAbort', p=p, b=b, e=e, why=type(ex).__name__)
+            if rt is RT:
+                RT.rec('peAbort', p=p, b=b, e=e, why=type(ex).__name__)
             raise
         finally:
-            RT.act[(b, e)].pop()
-            RT.cur_pe[asyncio.current_task()].pop()
-            if ok:
-                RT.rec('peEnd', p=p, b=b, e=e, snap=evsnap(event), all=briefsnap(), bus=bussnap(self))
+            # (a coroutine of an earlier scenario finalised late must not touch this scenario's tables)
+            if rt is RT:
+                rt.act[(b, e)].pop()
+                rt.cur_pe[task].pop()
+                if ok:
+                    RT.rec('peEnd', p=p, b=b, e=e, snap=evsnap(event), all=briefsnap(), bus=bussnap(self))
 
 
 _orig_update = BaseEvent.event_result_update
@@ -523,6 +532,8 @@ def make_handler(bi, k, h):
         RT.rec('unscheduledStart', i=i, b=bi, e=e, h=k)
         return i
 
+    rt = RT
+
     if h['kind'] == 'sync':
         def hs(event):
             t = asyncio.current_task()
@@ -538,7 +549,8 @@ def make_handler(bi, k, h):
                 RT.rec('hEnd', i=i, out='raise')
                 raise
             finally:
-                RT.syncstack[t].pop()
+                if rt is RT:
+                    RT.syncstack[t].pop()
         hs.__name__ = f'h{k}'
         hs.__qualname__ = f'h{k}'
         return hs
@@ -854,13 +866,27 @@ def run_scenario(sc, budget=300_000, watchdog=20):
         err = f'{type(e).__name__}: {e}'
     finally:
         signal.setitimer(signal.ITIMER_REAL, 0)
+        nlog = len(RT.log)
         try:
-            for t in asyncio.all_tasks(loop):
-                t.cancel()
+            # tear the scenario down completely while its tracing state is still installed: every leftover task gets its
+            # cancellation delivered and runs its finally blocks now, not at some garbage collection during a later scenario
+            loop._budget = loop._iters + 20000
+            for _ in range(3):
+                tasks = [t for t in asyncio.all_tasks(loop) if not t.done()]
+                if not tasks:
+                    break
+                for t in tasks:
+                    t.cancel()
+                try:
+                    loop.run_until_complete(asyncio.wait(tasks, timeout=5))
+                except BaseException:
+                    break
             loop.close()
         except BaseException:
             pass
         asyncio.set_event_loop(None)
+        del RT.log[nlog:]          # records made by the teardown are not part of the scenario
+        gc.collect()
     if ABORT and err is None:
         err = ('watchdog-in-bubus: ' if '/bubus/' in ABORT[0] else 'watchdog: ') + ABORT[0]
     log = RT.log
